@@ -52,7 +52,7 @@ class Ctx:
         self.rules[rid] = text
 
     def _add(self, ob):
-        k = (ob.rule, ob.construct, ob.status, ob.detail)
+        k = (ob.rule, ob.construct, ob.status)
         if k in self._seen:
             return ob
         self._seen.add(k)
